@@ -6,7 +6,7 @@ Import ListNotations.
 Definition exn_eqb (a b : exn) : bool :=
   match a, b with
   | Reportable, Reportable | ShapeLoad, ShapeLoad | ConstraintLoad, ConstraintLoad
-  | TooDeep, TooDeep | OutOfFuel, OutOfFuel => true
+  | TooDeep, TooDeep | OutOfFuel, OutOfFuel | ValFailure, ValFailure => true
   | _, _ => false
   end.
 
